@@ -12,7 +12,7 @@ META = {
                  "iteration on every path, no fall-through, default: skip_item(), length decremented once. R08.2 no case "
                  "reads what another case writes; time-offset resolution is after the loop. R08.3 imports the decoder "
                  "obligations (skip exhaustiveness, stop-code agreement, tag content, widths). R08.4 every read starts "
-                 "from reset state. R08.5 unknown keys cannot alias negative case labels. R08.6 = R07.9 (chunked strings). Reads that only size a reserve() do not make a case order-dependent; the array loop of read_array written out by hand is the same consumption. R08.1 also recognises one loop per length form (counted loop + indefinite loop with the stop-code test first, same body).",
+                 "from reset state. R08.5 unknown keys cannot alias negative case labels. R08.6 = R07.9 (chunked strings). Reads that only size a reserve() do not make a case order-dependent; the array loop of read_array written out by hand is the same consumption. R08.1 also recognises one loop per length form (counted loop + indefinite loop with the stop-code test first, same body). R08.10 (R07.4 and R07.7 imported for read_int): the argument of every head width is assembled to the value RFC 8949 assigns to its bytes on every path through read_int, and every shift in it stays inside the type of its operand - a wider head of the same value decodes to the same number.",
     "explanation": "Sibling cross-check of ~19 readers against one loop discipline, decided on the structured AST for all "
                    "inputs; equality of decoded values across rewrites is not decided.",
     "trusted_base": ["clang 14 AST"],
@@ -275,5 +275,15 @@ def check(run):
     C07.check_stop_agreement(run, "R08.3")
     run.floors.pop("R08.3", None)
     run.floor("R08.3", 25, "imported decoder obligations")
+    # an item means the same in every head width only if read_int assembles the argument of every width correctly: the value
+    # RFC 8949 assigns to the bytes (R07.4 imported) with every shift inside its operand's type (R07.7 imported, read_int only)
+    C07.check_read_int(run, "R08.10")
+    from .. import ranges as _ranges
+    ri = run.facts.fn("CDNS::CdnsDecoder::read_int", rule="R08.10")
+    seen_ = {}
+    for node, ok, txt in _ranges.check_function(ri, run.facts.enums):
+        base = "read_int:%s" % ir.show(node)[:50]
+        seen_[base] = seen_.get(base, 0) + 1
+        run.ob("R08.10", base if seen_[base] == 1 else "%s#%d" % (base, seen_[base]), ok, ri, node.get("l", 0), txt)
     check_reset(run, "R08.4", analyses)
     check_key_aliasing(run, "R08.5", analyses)
